@@ -60,12 +60,27 @@ theorem later_field_rejected (s : Schema) (v : Nat) (kids : List Item) (i : Item
 theorem all_schemas_unambiguous :
     schemas.all (fun s => versions.all (fun v => unambiguous s.fields v)) = true := by decide +kernel
 
-/-- every schema whose writer emits all fields (all but ResponseHeader) -/
-theorem all_but_response_header_written :
-    (schemas.filter (fun s => !allWritten s.fields)).map (·.name) = ["ResponseHeader"] := by decide +kernel
+/-- **Every writer emits every field its reader knows** (the other hypothesis of re-encode stability); before
+/repo 15c47ac the ResponseHeader entry failed this: the server correlation value was read and never written -/
+theorem all_schemas_written : schemas.all (fun s => allWritten s.fields) = true := by decide +kernel
 
-/-- F-C01-c as a theorem about the table: a ResponseHeader carrying a server correlation value is accepted by
-the reader and NOT reproduced by the writer … -/
+/-- hence, for every class of the table and every version: round trip and re-encode stability hold outright -/
+theorem table_decode_encode (s : Schema) (hs : s ∈ schemas) (v : Nat) (hv : v ∈ versions) (x : SVal)
+    (hc : conforms s.fields v x = true) : decodeS s v (encodeS s v x) = some x := by
+  have h := all_schemas_unambiguous
+  rw [List.all_eq_true] at h
+  have h2 := h s hs
+  rw [List.all_eq_true] at h2
+  exact schema_decode_encode s v x (h2 v hv) hc
+
+theorem table_reencode_stable (s : Schema) (hs : s ∈ schemas) (v : Nat) (i : Item) (x : SVal)
+    (h : decodeS s v i = some x) : encodeS s v x = i ∧ conforms s.fields v x = true := by
+  have hw := all_schemas_written
+  rw [List.all_eq_true] at hw
+  exact schema_reencode_stable s v i x (hw s hs) h
+
+/-- F-C01-c repaired: a ResponseHeader carrying a server correlation value is accepted by the reader and
+reproduced by the writer -/
 def headerWithCorrelation : Item :=
   .struct 0x42007A [
     .struct 0x420069 [.prim 0x42006A (.integer 1), .prim 0x42006B (.integer 4)],
@@ -73,21 +88,19 @@ def headerWithCorrelation : Item :=
     .prim 0x420106 (.textString [0x63]),
     .prim 0x42000D (.integer 0)]
 
-theorem response_header_drops_correlation_value :
+theorem response_header_keeps_correlation_value :
     ∃ x, decodeS responseHeader 14 headerWithCorrelation = some x ∧
-      encodeS responseHeader 14 x ≠ headerWithCorrelation := by
+      encodeS responseHeader 14 x = headerWithCorrelation := by
   refine ⟨[[.struct 0x420069 [.prim 0x42006A (.integer 1), .prim 0x42006B (.integer 4)]],
            [.prim 0x420092 (.dateTime 1)], [], [.prim 0x420106 (.textString [0x63])],
-           [.prim 0x42000D (.integer 0)]], by rfl, ?_⟩
-  intro h
-  have := congrArg (fun i => match i with | Item.struct _ ks => ks.length | _ => 0) h
-  revert this
-  decide +kernel
+           [.prim 0x42000D (.integer 0)]], by rfl, by rfl⟩
 
-/-- … and with the proposed repair the table entry satisfies the round-trip hypotheses under every version -/
-theorem response_header_repaired_ok :
-    allWritten responseHeaderRepaired.fields = true ∧
-    versions.all (fun v => unambiguous responseHeaderRepaired.fields v) = true := by decide +kernel
+/-- the CreateKeyPair response template attributes are neither written nor accepted under KMIP 2.0 -/
+example : encodeFields createKeyPairResponse.fields 20
+    [[.prim 0x420066 (.textString [0x31])], [.prim 0x42006F (.textString [0x32])], [.struct 0x420065 []], []] =
+    [.prim 0x420066 (.textString [0x31]), .prim 0x42006F (.textString [0x32])] := by rfl
+example : decodeFields createKeyPairResponse.fields 20
+    [.prim 0x420066 (.textString [0x31]), .prim 0x42006F (.textString [0x32]), .struct 0x420065 []] = none := by rfl
 
 /-- version gate instance: the KMIP 2.0 Ephemeral flag is not written under 1.4 and rejected when received -/
 example : encodeFields requestBatchItem.fields 14
